@@ -8,7 +8,7 @@
    (Spec/PrinterSpec.v: GraphQL June 2018, 2.9.4). *)
 From PyGql Require Import Lang.Parser Spec.LexSpec Spec.GrammarSpec Proofs.PrinterRoundtrip Proofs.PrinterValueRoundtrip
                           Proofs.PrinterExecRoundtrip Spec.ExecOnlySpec Proofs.PrinterSdlRoundtrip
-                          Proofs.PrinterClosedRoundtrip.
+                          Proofs.PrinterClosedRoundtrip Proofs.PrinterTotalRoundtrip.
 From PyGql Require Import Lang.PrinterModel Spec.PrinterSpec Proofs.PrinterProofs.
 
 (* Quoted strings: reading the printed form of ANY string s (every code
@@ -219,6 +219,48 @@ Theorem C03_idempotent_document_closed : forall fl fl' s d d' ind,
   print_ast ind true d' = print_ast ind true d.
 Proof. exact idempotent_document_closed. Qed.
 Print Assumptions C03_idempotent_document_closed.
+
+(* ---- every accepted document, member descriptions included ----
+   [forget_member_descriptions d] is d with the description of every field,
+   argument, input field and enum value set to None and nothing else changed
+   (C03_forget_fixed: the identity on documents that carry none).  For EVERY
+   document the parser accepts the printed text is accepted again and gives
+   back the original tree up to positions and up to exactly those descriptions
+   (the open finding member-descriptions, stated exactly: this is all that
+   is lost, and C03_descriptions_refuted below shows it is lost). *)
+Theorem C03_roundtrip_document_total : forall fl fl' s d ind,
+  parse_document fl s = Ok d -> all_ws ind ->
+  no_location fl' = true -> allow_type_system fl' = true ->
+  (fragment_variables fl = true -> fragment_variables fl' = true) ->
+  parse_document fl' (print_ast ind true d) = Ok (strip_doc (forget_member_descriptions d)).
+Proof. exact roundtrip_document_total. Qed.
+Print Assumptions C03_roundtrip_document_total.
+
+Theorem C03_forget_fixed : forall d,
+  no_member_descriptions d -> forget_member_descriptions d = d.
+Proof. exact forget_fixed. Qed.
+Print Assumptions C03_forget_fixed.
+
+(* the idempotence law with no side hypothesis on the document:
+   print (parse (print d)) = print d for every accepted d and every indent *)
+Theorem C03_idempotent_total : forall fl fl' s d d' ind,
+  parse_document fl s = Ok d -> all_ws ind ->
+  no_location fl' = true -> allow_type_system fl' = true ->
+  (fragment_variables fl = true -> fragment_variables fl' = true) ->
+  parse_document fl' (print_ast ind true d) = Ok d' ->
+  print_ast ind true d' = print_ast ind true d.
+Proof. exact idempotent_document_total. Qed.
+Print Assumptions C03_idempotent_total.
+
+(* and the re-parsed tree is a fixed point of parse . print *)
+Theorem C03_reparse_stable : forall fl fl' s d ind,
+  parse_document fl s = Ok d -> all_ws ind ->
+  no_location fl' = true -> allow_type_system fl' = true ->
+  (fragment_variables fl = true -> fragment_variables fl' = true) ->
+  forall d', parse_document fl' (print_ast ind true d) = Ok d' ->
+  parse_document fl' (print_ast ind true d') = Ok d'.
+Proof. exact reparse_stable. Qed.
+Print Assumptions C03_reparse_stable.
 
 (* the two independent transcriptions of BlockStringValue (C02's and C03's)
    are the same function *)
